@@ -72,6 +72,13 @@ def stepLine (_ : Unit) (line : String) : Unit × String :=
       match parseNats? ss, pOptInt a, pOptInt b with
       | some ss, some a, some b => let (p, q, r, t) := splitSliceBounds ss a b; s!"{p},{q},{r},{t}"
       | _, _, _ => "bad-op"
+    | ["intslice", n, i] =>
+      match n.toNat?, i.toInt? with
+      | some n, some i =>
+        match intToSlice n i with
+        | .slice a b c => showNats (sliceIndices n a b c)
+        | _ => "bad-op"
+      | _, _ => "bad-op"
     | ["absorbed", b, r, c] => if rowColAbsorbed (b = "1") (r = "1") (c = "1") then "1" else "0"
     | _ => "bad-op"
   ((), out)
